@@ -60,6 +60,21 @@ def _restore(cpu):
     return f
 
 
+def const_of(x):
+    "the value of an expression that is a constant or a composition of constants (None otherwise)"
+    if x._is_cst:
+        return x.v
+    if x._is_cmp:
+        total = 0
+        for (lo, hi) in sorted(x.parts.keys()):
+            v = const_of(x.parts[(lo, hi)])
+            if v is None:
+                return None
+            total = total + ((v % (1 << (hi - lo))) << lo)
+        return total
+    return None
+
+
 @factory
 def block_step(cpu, mode, seq, noaliasing, memtrace, names=""):
     m = importlib.import_module(cpu)
@@ -104,11 +119,10 @@ def block_step(cpu, mode, seq, noaliasing, memtrace, names=""):
         for r in regs:
             a = B(r)
             b = S2(r)
-            if a._is_cst and b._is_cst and a.size == b.size:
-                post["C02 register %s: block route == step route" % r.ref] = Eq(a.v, b.v)
+            va, vb = const_of(a), const_of(b)
+            if va is not None and vb is not None and a.size == b.size:
+                post["C02 register %s: block route == step route" % r.ref] = Eq(va, vb)
                 compared += 1
-            elif a._is_cst and not b._is_cst:
-                pass     # the step route stayed symbolic: nothing to compare
         # memory written at constant addresses by either route
         locs = {}
         for mp in (B, S2):
@@ -118,8 +132,18 @@ def block_step(cpu, mode, seq, noaliasing, memtrace, names=""):
         for key, (loc, size) in sorted(locs.items()):
             a = B(E.mem(loc, size))
             b = S2(E.mem(loc, size))
-            if a._is_cst and b._is_cst and a.size == b.size:
-                post["C02 memory %s: block route == step route" % key] = Eq(a.v, b.v)
+            va, vb = const_of(a), const_of(b)
+            if va is not None and vb is not None and a.size == b.size:
+                post["C02 memory %s: block route == step route" % key] = Eq(va, vb)
+                compared += 1
+            # the same location looked up in the maps' memories (mapper.__getitem__)
+            try:
+                a, b = B[E.mem(loc, size)], S2[E.mem(loc, size)]
+            except Exception:
+                continue
+            va, vb = const_of(a), const_of(b)
+            if va is not None and vb is not None and a.size == b.size:
+                post["C02 memory %s (looked up): block route == step route" % key] = Eq(va, vb)
                 compared += 1
         post["C02 compared something"] = True
         V.note("compared=%d" % compared)
@@ -132,7 +156,7 @@ def block_step(cpu, mode, seq, noaliasing, memtrace, names=""):
                        "amoco.cas.mapper:mapper.use", "amoco.cas.mapper:mapper.__setitem__", "amoco.cas.mapper:mapper.__call__", "amoco.arch.core:icore.__call__",
                        "%s: i_XXX semantics" % cpu],
                       mode="bv", W=W, level="Bsym", bound="instruction sequences of length <= 3 (quick) / 4 (thorough) from spec-driven concrete encodings; all register states symbolic; memory initially unknown",
-                      before_path=before, samples=6, maxpaths=3000, index_limit=300, vc_timeout_ms=10000, budget_s=30)
+                      before_path=before, samples=6, maxpaths=3000, index_limit=300, vc_timeout_ms=10000, budget_s=20)
 
 
 def gen_sequences(mn, d, mode, n, maxlen, rng):
@@ -177,6 +201,52 @@ def gen_sequences(mn, d, mode, n, maxlen, rng):
     return seqs
 
 
+def memory_sequences(n, rng):
+    """hand-encoded store/load sequences through one base register with overlapping offsets and
+    repeated pointers (x86 and RV32I): the order in which a block map replays its memory writes"""
+    out = []
+    regs86 = {0: "eax", 1: "ecx", 2: "edx", 6: "esi", 7: "edi"}
+
+    def x86_op(kind, size, reg, disp):
+        modrm = 0x40 | (reg << 3) | 3            # [ebx+disp8]
+        op = {("st", 4): b"\x89", ("st", 2): b"\x66\x89", ("st", 1): b"\x88", ("ld", 4): b"\x8b", ("ld", 2): b"\x66\x8b", ("ld", 1): b"\x8a"}[(kind, size)]
+        return op + bytes([modrm, disp & 0xFF]), "MOV"
+
+    def rv_op(kind, size, reg, disp):
+        f3 = {4: 2, 2: 1, 1: 0}[size]
+        rs1 = 8                                     # s0
+        if kind == "st":
+            w = ((disp >> 5) & 0x7F) << 25 | reg << 20 | rs1 << 15 | f3 << 12 | (disp & 0x1F) << 7 | 0x23
+            nm = {4: "sw", 2: "sh", 1: "sb"}[size]
+        else:
+            w = (disp & 0xFFF) << 20 | rs1 << 15 | f3 << 12 | reg << 7 | 0x03
+            nm = {4: "lw", 2: "lh", 1: "lb"}[size]
+        return w.to_bytes(4, "little"), nm
+    # canonical patterns: (kind, size, offset) with the stored register varying per position
+    PATTERNS = [
+        [("st", 4, 0), ("st", 4, 2), ("st", 4, 0)],                   # a pointer stored to again after an overlapping store
+        [("st", 4, 0), ("st", 4, 2), ("st", 4, 0), ("ld", 4, 0)],
+        [("st", 4, 4), ("st", 1, 5), ("st", 2, 4), ("ld", 4, 4)],
+        [("st", 2, 2), ("st", 4, 0), ("st", 2, 2), ("ld", 4, 0)],
+        [("st", 4, 0), ("ld", 4, 0), ("st", 4, 0)],
+    ]
+    for cpu, mk, regs in (("amoco.arch.x86.cpu_x86", x86_op, [0, 1, 2, 6, 7]), ("amoco.arch.riscv.cpu_rv32i", rv_op, [10, 11, 12, 13])):
+        for pat in PATTERNS:
+            out.append((cpu, [mk(kind, size, regs[j % len(regs)], off) for j, (kind, size, off) in enumerate(pat)]))
+        for _ in range(n):
+            k = rng.choice((3, 3, 4))
+            seq = []
+            d0 = rng.choice((0, 4, 8))
+            offs = [d0] + [d0 + rng.choice((0, 0, 1, 2, 3, 4, -2)) for _ in range(k - 1)]
+            if rng.random() < 0.6:
+                offs[-1] = offs[0]                  # the first pointer is used again
+            for j in range(k):
+                kind = "st" if (j < k - 1 or rng.random() < 0.6) else "ld"
+                seq.append(mk(kind, rng.choice((4, 4, 2, 1)), rng.choice(regs), max(0, offs[j])))
+            out.append((cpu, seq))
+    return out
+
+
 def obligations(prop, tier, seed):
     # the corpus is FIXED (independent of VERIF_SEED): block/step disagreements are genuine
     # defects of individual semantics functions, recorded one by one as known findings by
@@ -198,6 +268,25 @@ def obligations(prop, tier, seed):
                     o.optional = True
                     o.weight = 3 * len(seq)
                     obs.append(o)
+    for cpu, seq in memory_sequences(8 if tier == "quick" else 60, random.Random("blockstep-memory-corpus")):
+        if cpu not in allcpus:
+            continue
+        for (na, mt) in [(True, True), (False, True), (True, False)]:
+            o = block_step(cpu=cpu, mode=0, seq=[b.hex() for b, nm in seq], noaliasing=na, memtrace=mt, names="mem:" + "+".join(nm for b, nm in seq))
+            o.optional = True
+            o.weight = 3 * len(seq)
+            obs.append(o)
+    # x86 / x64 shifts and rotates of 8- and 16-bit operands by CL: counts at or above the operand
+    # width are where a map built for a symbolic count and the constant-count path can part
+    for cpu in ("amoco.arch.x86.cpu_x86", "amoco.arch.x64.cpu_x64"):
+        if cpu not in allcpus:
+            continue
+        for op, nm in ((0, "ROL"), (1, "ROR"), (2, "RCL"), (3, "RCR"), (4, "SHL"), (5, "SHR"), (7, "SAR")):
+            for enc, w in ((bytes([0xD2, 0xC3 | op << 3]), 8), (bytes([0x66, 0xD3, 0xC3 | op << 3]), 16)):
+                o = block_step(cpu=cpu, mode=0, seq=[enc.hex()], noaliasing=True, memtrace=True, names="cl%d:%s" % (w, nm))
+                o.optional = True
+                o.weight = 3
+                obs.append(o)
     seen = set()
     out = []
     for o in obs:
